@@ -448,6 +448,17 @@ Walk:
 		}
 
 		if charsMatched < len(path) {
+			// Tsr recommendation: remove the extra trailing slash (got an exact match on a leaf). This must be
+			// detected before going deeper, since a wildcard child would otherwise consume the walk.
+			if !tsr && current.isLeaf() && charsMatched == len(path)-1 && path[charsMatched] == slashDelim && charsMatched > 0 {
+				tsr = true
+				n = current
+				// Save also a copy of the matched params, it should not allocate anything in most case.
+				if !lazy {
+					copyWithResize(c.tsrParams, c.params)
+				}
+			}
+
 			// linear search
 			idx := -1
 			for i := 0; i < len(current.childKeys); i++ {
